@@ -3,7 +3,7 @@ from .. import simprop
 
 ID = "C12"
 FAMILY = "C12"
-VARIANTS = ("asan",)
+VARIANTS = ("asan", "rel")      # rel: only to re-judge a case that UBSan stopped (simprop)
 BUDGET = {"quick": dict(examples=80000, seconds=55), "thorough": dict(examples=2000000, seconds=540)}
 NONTRIVIAL = {'blocked-oput', 'blocked-kput', 'blocked-oget', 'pq-cancel', 'blocked-kget', 'pq-reprio'}
 PROFILES = [(4, 'queue'), (1, 'mixed')]
